@@ -43,13 +43,13 @@ const (
 func init() {
 	property("C01", "Replies arrive in request order, exactly one per request",
 		"that each merged or relayed reply body is itself exactly one RESP reply (value-level, see C02/C07); byte-level interleaving with partial writes inside the buffers (C19); kernel behaviour",
-		"C01.1", "C01.2", "C01.3", "C01.4", "C01.5", "C01.6", "C03.6")
+		"C01.1", "C01.2", "C01.3", "C01.4", "C01.5", "C01.6", "C03.6", "C03.7")
 	property("C02", "Single-key requests and their replies pass through byte-exact",
 		"that readReply's recursive framing computes the right frame length for every RESP2 value; parseLen/ReadN arithmetic for every length; behaviour at multi-megabyte sizes; cursor arithmetic inside the ring/list buffers (C19)",
-		"C02.1", "C02.2", "C02.3", "C02.4", "C02.5", "C02.6", "C01.5")
+		"C02.1", "C02.2", "C02.3", "C02.4", "C02.5", "C02.6", "C02.7", "C01.5")
 	property("C03", "A client never receives a reply produced for a different request",
 		"that a backend answers in order on one connection (protocol assumption); the actual reuse order of sync.Pool objects",
-		"C03.1", "C03.2", "C03.3", "C03.4", "C03.5", "C03.6")
+		"C03.1", "C03.2", "C03.3", "C03.4", "C03.5", "C03.6", "C03.7", "C02.1", "C02.3")
 	property("C04", "Requests are routed to the replica set owning the key's slot, by role",
 		"the contents of the slot table versus the real cluster (C14); what a node does with READONLY/AUTH",
 		"C04.1", "C04.2", "C04.3", "C04.4", "C04.5", "C04.6", "C14.6", "C03.6")
@@ -70,13 +70,13 @@ func init() {
 		"C09.1", "C09.2")
 	property("C10", "Requests from one client reach each node in the order sent",
 		"more than one connection per node (excluded by the property); kernel behaviour",
-		"C10.1", "C10.2", "C10.3", "C01.5")
+		"C10.1", "C10.2", "C10.3", "C01.5", "C02.7", "C15.3")
 	property("C11", "Backend errors reach the client as errors, never as success or a crash",
 		"the set of error texts Redis can emit (the rules are on the reply type byte)",
 		"C11.1", "C11.2", "C11.3", "C11.4")
 	property("C12", "No client input can crash the proxy, disturb others or reach a backend malformed",
 		"that parseLen accepts only canonical decimal and cannot overflow; memory growth on never-completing requests; every index expression on client bytes",
-		"C12.1", "C12.2", "C12.5", "C08.2", "C17.2", "C02.1", "C02.4")
+		"C12.1", "C12.2", "C12.3", "C12.5", "C08.2", "C17.2", "C02.1", "C02.4")
 	property("C13", "MOVED and ASK redirects are followed transparently and terminate",
 		"that the final node's reply is correct; cluster-side migration semantics",
 		"C13.1", "C13.2", "C13.3", "C13.4", "C15.4")
